@@ -47,7 +47,9 @@ def run_deductive(rep):
         found = M.native_collision_search(3 if rep.tier == "thorough" else 2)
         if found:
             rep.add_obligation("_merge_columns.merged_key_injective(bounded native search, pipeline not extractable)", fn, "failed", "native", 0.0, "P")
-            rep.violation("C13:_merge_columns:collision", f"two different tuples {found['row_a']} and {found['row_b']} get the same merged key {found['merged_key']!r}",
+            what = f"two different tuples {found['row_a']} and {found['row_b']} get the same merged key {found['merged_key']!r}" if "kind" not in found else \
+                f"the merged key of {found['row_a']} is {found['merged_key']!r} in one table and {found['key_in_another_table']!r} in another ({found['kind']})"
+            rep.violation("C13:_merge_columns:collision" if "kind" not in found else "C13:_merge_columns:key-not-row-local", what,
                           replay={"obligation": "_merge_columns.merged_key_injective", "native": found}, obligation="_merge_columns.merged_key_injective")
     for ep in dominance.ENTRY_POINTS:
         dominance.report(rep, *ep)
